@@ -282,7 +282,7 @@ pub fn resolve(sym: Sym, m: &Model, rng: &mut Rng, step: usize) -> Op {
         Sym::StatusPlayStart if rng.chance(1, 12) => Op::OtherCommand { txid: status_tx(m, rng) },
         Sym::StatusPlayStart => Op::OnStatus { code: Some("NetStream.Play.Start".into()), form: if rng.chance(1, 5) { 4 } else { 0 }, msid: sel_msid(m, MsidSel::Active) , txid: status_tx(m, rng) },
         Sym::StatusPublishStart => Op::OnStatus { code: Some("NetStream.Publish.Start".into()), form: if rng.chance(1, 5) { 4 } else { 0 }, msid: sel_msid(m, MsidSel::Active) , txid: status_tx(m, rng) },
-        Sym::StatusUnknown => Op::OnStatus { code: Some(rng.pick(&["NetStream.Play.Reset", "NetStream.Play.Stop", "NetStream.Unpublish.Success", "x"]).to_string()), form: 0, msid: sel_msid(m, MsidSel::Active) , txid: status_tx(m, rng) },
+        Sym::StatusUnknown => Op::OnStatus { code: Some(rng.pick(&["NetStream.Play.Reset", "NetStream.Play.Stop", "NetStream.Unpublish.Success", "x", "NetStream.Play.START", "netstream.publish.start", "NETSTREAM.PLAY.START", "NetStream.Publish.Start ", " NetStream.Play.Start", "NetStream.Publish.Start\u{0}", "NetStream.Play.Star", "NetStream.Publish.Started"]).to_string()), form: 0, msid: sel_msid(m, MsidSel::Active) , txid: status_tx(m, rng) },
         Sym::StatusMalformed(f) => Op::OnStatus { code: None, form: f, msid: 0 , txid: status_tx(m, rng) },
         Sym::Audio(s) => {
             let (ts, data) = media(rng);
